@@ -3,6 +3,7 @@ package main
 // rules_fmt2.go — FMT9..FMT11: what the reader does with the values it decodes.
 
 import (
+	"go/constant"
 	"fmt"
 	"go/ast"
 	"go/token"
@@ -245,6 +246,32 @@ func ruleRejections(r *Run, rule string, k *serKind) {
 				okB := false
 				if tv, ok := info.Types[be.Y]; ok && tv.Value != nil {
 					okB = enforced[be.Op.String()+tv.Value.ExactString()]
+					// or the writer can only emit constants that satisfy the bound: the value written at the position the
+					// variable is decoded from is a local assigned constants only (flag := 0; if … { flag = 1 })
+					if !okB {
+						if id, isID := be.X.(*ast.Ident); isID {
+							if vals, known := writerConstSet(k, info, id.Name); known && len(vals) > 0 {
+								okB = true
+								bound, _ := constant.Int64Val(constant.ToInt(tv.Value))
+								for _, v := range vals {
+									rejected := false
+									switch be.Op {
+									case token.GTR:
+										rejected = v > bound
+									case token.GEQ:
+										rejected = v >= bound
+									case token.LSS:
+										rejected = v < bound
+									case token.LEQ:
+										rejected = v <= bound
+									}
+									if rejected {
+										okB = false
+									}
+								}
+							}
+						}
+					}
 				}
 				r.Check(okB, rule, key, site, "the writer enforces the same bound before emitting", "the reader rejects streams with "+exprStr(be)+", a bound the writer does not enforce on what it emits")
 				return true
@@ -253,6 +280,103 @@ func ruleRejections(r *Run, rule string, k *serKind) {
 		})
 	}
 	r.Ok(rule, k.Name+":rejections", w.Pos(k.RDecl.Pos())+" (*"+k.Name+").ReadFrom", fmt.Sprintf("%d ordering rejections on decoded values, each enforced by the writer", n))
+}
+
+// writerConstSet: the reader variable `name` is decoded at some stream position; the writer emits at that position a local
+// variable all of whose assignments are integer constants. Returns those constants.
+func writerConstSet(k *serKind, info *types.Info, name string) ([]int64, bool) {
+	wf, rf := fieldsOnly(flattenToks(k.Writer.Toks)), fieldsOnly(flattenToks(k.Reader.Toks))
+	if len(wf) != len(rf) {
+		return nil, false
+	}
+	pos := -1
+	for i, t := range rf {
+		if t.Arg == name {
+			if pos >= 0 {
+				return nil, false // decoded at several positions
+			}
+			pos = i
+		}
+	}
+	if pos < 0 {
+		return nil, false
+	}
+	warg := wf[pos].Arg
+	// find the writer's local of that name at/before the token
+	var obj types.Object
+	for _, root := range k.Writer.Roots {
+		ast.Inspect(root, func(n ast.Node) bool {
+			if id, ok := n.(*ast.Ident); ok && id.Name == warg && id.Pos() <= wf[pos].Pos+token.Pos(len(warg)+64) {
+				if o := info.Uses[id]; o != nil {
+					if _, isVar := o.(*types.Var); isVar {
+						obj = o
+					}
+				}
+			}
+			return true
+		})
+	}
+	if obj == nil {
+		return nil, false
+	}
+	var vals []int64
+	okAll := true
+	record := func(e ast.Expr) {
+		tv, ok := info.Types[e]
+		if !ok || tv.Value == nil || tv.Value.Kind() != constant.Int {
+			okAll = false
+			return
+		}
+		v, _ := constant.Int64Val(tv.Value)
+		vals = append(vals, v)
+	}
+	for _, root := range k.Writer.Roots {
+		ast.Inspect(root, func(n ast.Node) bool {
+			switch x := n.(type) {
+			case *ast.AssignStmt:
+				for i, l := range x.Lhs {
+					id, ok := l.(*ast.Ident)
+					if !ok {
+						continue
+					}
+					o := info.Defs[id]
+					if o == nil {
+						o = info.Uses[id]
+					}
+					if o != obj {
+						continue
+					}
+					if len(x.Rhs) != len(x.Lhs) || (x.Tok != token.ASSIGN && x.Tok != token.DEFINE) {
+						okAll = false
+						continue
+					}
+					record(x.Rhs[i])
+				}
+			case *ast.ValueSpec:
+				for i, nm := range x.Names {
+					if info.Defs[nm] == obj {
+						if i < len(x.Values) {
+							record(x.Values[i])
+						} else {
+							vals = append(vals, 0)
+						}
+					}
+				}
+			case *ast.IncDecStmt:
+				if id, ok := x.X.(*ast.Ident); ok && info.Uses[id] == obj {
+					okAll = false
+				}
+			case *ast.UnaryExpr:
+				if x.Op == token.AND {
+					if id, ok := x.X.(*ast.Ident); ok && info.Uses[id] == obj {
+						okAll = false
+					}
+				}
+			}
+			return true
+		})
+	}
+	return vals, okAll
 }
 
 func isOrdering(op token.Token) bool {
